@@ -451,9 +451,15 @@ def _rw_io_once(tl):
             i += 9
             cnt += 1
             continue
-        if tl[i:i + 3] == ["process", "::", "exit"]:
-            out.append("proc_exit")
-            i += 3
+        if tl[i:i + 4] == ["process", "::", "exit", "("]:
+            j = _close(tl, i + 3)
+            # the exiting pop routine has the two writers in scope: pass them so that the helper can require that
+            # both were flushed (delivered) before the process ends
+            if "out" in tl and "err" in tl:
+                out += ["proc_exit_flushed", "("] + tl[i + 4:j] + [",", "out", ",", "err", ")"]
+            else:
+                out += ["proc_exit", "("] + tl[i + 4:j] + [")"]
+            i = j + 1
             cnt += 1
             continue
         if tl[i:i + 3] == ["io", "::", "read_line_from"]:
